@@ -33,7 +33,7 @@ use std::hash::Hasher;
 use std::panic::{catch_unwind, AssertUnwindSafe};
 use verif_harness::util::*;
 
-type FB<const B: u64> = FBig<mode::Zero, B>;
+type FB<const B: dashu_int::Word> = FBig<mode::Zero, B>;
 
 #[derive(Clone)]
 pub enum Num {
@@ -68,7 +68,7 @@ fn bad(s: &str) -> String {
     format!("bad-arg num {}", s)
 }
 
-fn mk_f<const B: u64>(signif: IBig, exp: isize, prec: usize) -> FB<B> {
+fn mk_f<const B: dashu_int::Word>(signif: IBig, exp: isize, prec: usize) -> FB<B> {
     let repr = if signif.is_zero() && exp > 0 {
         Repr::<B>::infinity()
     } else if signif.is_zero() && exp < 0 {
@@ -584,7 +584,7 @@ fn log2encl(x: &Num) -> Res {
             Some(log2_ubig(&dashu_base::UnsignedAbs::unsigned_abs(x)))
         }
     }
-    fn of_float<const B: u64>(a: &FB<B>) -> Result<Option<f64>, String> {
+    fn of_float<const B: dashu_int::Word>(a: &FB<B>) -> Result<Option<f64>, String> {
         let r = a.repr();
         if r.is_infinite() {
             return Err("bad-arg log2encl infinite".into());
